@@ -3,6 +3,7 @@ CONSTANTS
   Threads = {"t1", "t2"}
   Progs <- ProgTable
   Dev = {"builtin_write_allowed"}
+  ProgSel = {"rd", "wr", "df", "pu", "uid", "uid2"}
   MaxJobs = 1
 INVARIANTS Deterministic
 CHECK_DEADLOCK FALSE
